@@ -116,6 +116,11 @@ def run(ctx):
         if not v[1]:
             ctx.violation(f"purity/ArgumentsIntact/{n.split('#')[0]}", f"{n}: argument buffer altered by the call (first call)",
                           {"sig": n, "kind": "intact"})
+    for n, v in ref.items():
+        if len(v) > 3 and not v[3]:
+            ctx.violation(f"purity/EqualArgumentsEqualResults/{n.split('#')[0]}",
+                          f"{n}: calls with equal arguments (equal by value, held in different buffers) returned different results: {str(v[2])[:160]}",
+                          {"sig": n, "kind": "same"})
     ctx.sample({"reference_sample": {n: str(ref[n][2])[:80] for n in names[:3]}})
     refmap = {n: v[0] for n, v in ref.items()}
     ref_file = os.path.join(ctx.rundir, "ref.json")
